@@ -2,7 +2,8 @@
    This file holds only the statement, the property theorems and their non-vacuity examples.
    `prog` is ruleHash as regenerated from src/build/incrementality.go by gotrans; `ser prog false t` is the byte
    stream build.RuleHash(state, t, false, _) feeds to SHA-1 (tied on every run: sha1 of that stream = the real hash). *)
-From PlzV Require Import Base.Harness Model.C08 Model.C08_Set Model.C08_Spec Gen.RuleHashProg Proof.C08.
+From PlzV Require Import Base.Harness Model.C08 Model.C08_Set Model.C08_Spec Model.C08_Cache Gen.RuleHashProg Proof.C08
+  Proof.C08_Cache.
 
 (* Two well-formed target definitions that differ in ANY build-relevant attribute (command selected for the
    configuration, srcs, named srcs, outs, named outs, optional outs, deps, tools, env, pass_env and the values of the
@@ -71,3 +72,56 @@ Example C08_partial_nonvacuous :
 Proof.
   cbv zeta. repeat split; try (vm_compute; reflexivity); try (cbn; tauto); try agree_tac; vm_compute; discriminate.
 Qed.
+
+(* ---------------------------------------------------------------------------------------------------------------------
+   The hash Please actually USES is the value build.RuleHash(state, target, runtime, postBuild) returns, and RuleHash
+   memoises the non-runtime hash on the target while the build changes the target (post-build function: add_out,
+   set_command, add_label, add_dep ...; outputs found in an output directory).  `rule_hash_wrapper` is RuleHash (and
+   BuildTarget.BuildCouldModifyTarget) as regenerated from the source; `calls` runs the state machine of
+   Model/C08_Cache.v over a history of attribute changes and RuleHash calls starting from a freshly parsed target (no
+   memo); `valid` admits every history in which, once a hash is memoised, the attributes change only while
+   BuildCouldModifyTarget() holds (before anything is memoised - parsing, the pre-build function - any change is allowed).
+
+   1. Along every valid history, every call that is a post-build call, a runtime call, or a call on a target the build
+      cannot modify returns the hash of the attributes AS THEY ARE AT THAT CALL (never a hash memoised before a change).
+   2. Hence the characterisation of C08_partial holds for the values RuleHash returns after builds changed the targets:
+      two such calls (same runtime flag) in two valid histories, on targets whose current attributes differ in one hashed
+      field, return equal values iff the strings written for that field concatenate to the same bytes, and a change that
+      alters the written strings without moving an entry boundary is always detected. *)
+Definition C08_postbuild_statement : Prop :=
+  forall (D : Type) (H : str -> D),
+    (forall t0 evs, valid D H prog rule_hash_wrapper (t0, None) evs ->
+       Forall (fun c => fresh_call (c_rt c) (c_pb c) (c_target c) = true -> c_result c = H (ser prog (c_rt c) (c_target c)))
+              (calls D H prog rule_hash_wrapper (t0, None) evs))
+    /\ (injective H -> forall ta evsa tb evsb ca cb f,
+          valid D H prog rule_hash_wrapper (ta, None) evsa -> valid D H prog rule_hash_wrapper (tb, None) evsb ->
+          In ca (calls D H prog rule_hash_wrapper (ta, None) evsa) -> In cb (calls D H prog rule_hash_wrapper (tb, None) evsb) ->
+          c_rt ca = c_rt cb ->
+          fresh_call (c_rt ca) (c_pb ca) (c_target ca) = true -> fresh_call (c_rt cb) (c_pb cb) (c_target cb) = true ->
+          In f hashed_fields -> agree_except f (c_target ca) (c_target cb) ->
+          (c_result ca = c_result cb
+             <-> concat (toks_of f (c_rt ca) (c_target ca)) = concat (toks_of f (c_rt ca) (c_target cb)))
+          /\ (toks_of f (c_rt ca) (c_target ca) <> toks_of f (c_rt ca) (c_target cb) ->
+              shift_suspect (toks_of f (c_rt ca) (c_target ca)) (toks_of f (c_rt ca) (c_target cb)) = false ->
+              c_result ca <> c_result cb)).
+
+Theorem C08_postbuild : C08_postbuild_statement.
+Proof. exact C08_postbuild_proof. Qed.
+Print Assumptions C08_postbuild.
+
+(* Non-vacuity of C08_postbuild: a valid history on a target with a post-build function - pre-build hash, the post-build
+   function adds the output extra1.txt, post-build hash - in which the post-build call demands (and gets) the hash of the new
+   attributes, different from the memoised pre-build hash; and the same history under a RuleHash whose bypass condition is
+   only `runtime` (not the generated one: wrapper_okb is false for it) returns the stale pre-build hash twice. *)
+Example C08_postbuild_nonvacuous :
+  (valid str (fun x => x) prog rule_hash_wrapper (pb_base, None) pb_history
+   /\ map (@c_result str) (calls str (fun x => x) prog rule_hash_wrapper (pb_base, None) pb_history)
+      = [ser prog false pb_base; ser prog false pb_built]
+   /\ fresh_call false true pb_built = true
+   /\ ser prog false pb_base <> ser prog false pb_built)
+  /\ (wrapper_okb wrapper_runtime_only = false
+      /\ valid str (fun x => x) prog wrapper_runtime_only (pb_base, None) pb_history
+      /\ map (@c_result str) (calls str (fun x => x) prog wrapper_runtime_only (pb_base, None) pb_history)
+         = [ser prog false pb_base; ser prog false pb_base]
+      /\ ser prog false pb_base <> ser prog false pb_built).
+Proof. split; [exact generated_wrapper_current | exact runtime_only_wrapper_stale]. Qed.
